@@ -7,6 +7,7 @@ import (
 	"github.com/ugorji/go/codec"
 	"reflect"
 	"sort"
+	"strconv"
 	"strings"
 	"time"
 	"unsafe"
@@ -119,6 +120,16 @@ func sexpToJson(exp Sexp, inProgress map[interface{}]bool) string {
 	}
 }
 
+// jsonKeyName renders a hash key as a JSON object member name: the
+// text of a string key, otherwise the printed form of the key, as
+// one JSON string either way.
+func jsonKeyName(key Sexp) string {
+	if s, isStr := key.(*SexpStr); isStr {
+		return strconv.Quote(s.S)
+	}
+	return strconv.Quote(key.SexpString(nil))
+}
+
 func (hash *SexpHash) jsonHashHelper(inProgress map[interface{}]bool) string {
 	if inProgress[hash] {
 		panic(fmt.Errorf("cannot encode a value that contains itself"))
@@ -135,11 +146,11 @@ func (hash *SexpHash) jsonHashHelper(inProgress map[interface{}]bool) string {
 	}
 
 	for _, key := range hash.KeyOrder {
-		keyst := key.SexpString(nil)
+		keyst := jsonKeyName(key)
 		ko = append(ko, keyst)
 		val, err := hash.HashGet(nil, key)
 		if err == nil {
-			str += `"` + keyst + `":`
+			str += keyst + `:`
 			str += string(sexpToJson(val, inProgress)) + `, `
 		} else {
 			panic(err)
@@ -148,7 +159,7 @@ func (hash *SexpHash) jsonHashHelper(inProgress map[interface{}]bool) string {
 
 	str += `"zKeyOrder":[`
 	for _, key := range ko {
-		str += `"` + key + `", `
+		str += key + `, `
 	}
 	if n > 0 {
 		str = str[:len(str)-2]
